@@ -129,6 +129,16 @@ def _is_typeddict(t):
     return (_MypyTDMeta and isinstance(t, _MypyTDMeta)) or (_TypingTDMeta and isinstance(t, _TypingTDMeta))
 
 
+def _field_name(k):
+    """A TypedDict field name as text: the key itself when it is a str (a str subclass instance: its plain text), otherwise
+    a marker naming the key's class - the projection stays total when an implementation lets a non-string key through."""
+    if type(k) is str:
+        return k
+    if isinstance(type(k), type) and issubclass(type(k), str):
+        return str.__str__(k)
+    return "<non-str key:%s>" % type(k).__name__
+
+
 def abs_type(t, table=TABLE, depth=0):
     """Project a typing object into the abstract type grammar (independent of monkeytype.compat)."""
     if depth > 40:
@@ -150,11 +160,11 @@ def abs_type(t, table=TABLE, depth=0):
         if t.__name__ == "DUMMY_NAME" and set(ann) == {"required_fields", "optional_fields"}:
             req = dict(ann["required_fields"].__annotations__)
             opt = dict(ann["optional_fields"].__annotations__)
-            flds = [T("req", k, [abs_type(v, table, depth + 1)]) for k, v in req.items()]
-            flds += [T("opt", k, [abs_type(v, table, depth + 1)]) for k, v in opt.items()]
+            flds = [T("req", _field_name(k), [abs_type(v, table, depth + 1)]) for k, v in req.items()]
+            flds += [T("opt", _field_name(k), [abs_type(v, table, depth + 1)]) for k, v in opt.items()]
             return T("td", "", [], sorted(flds, key=canon))
         total = getattr(t, "__total__", True)
-        flds = [T("req" if total else "opt", k, [abs_type(v, table, depth + 1)]) for k, v in ann.items()]
+        flds = [T("req" if total else "opt", _field_name(k), [abs_type(v, table, depth + 1)]) for k, v in ann.items()]
         return T("named", t.__name__, [], sorted(flds, key=canon))
     origin = typing.get_origin(t)
     if origin is typing.Union or (hasattr(types, "UnionType") and isinstance(t, types.UnionType)):
